@@ -5,6 +5,8 @@ import (
 	"go/ast"
 	"go/types"
 	"strings"
+
+	"golang.org/x/tools/go/ssa"
 )
 
 // R-ADDRPRINT: no machine address reaches formatted text.
@@ -153,4 +155,112 @@ func runAddrPrint(c *Ctx, r *Reporter) {
 	if n == 0 {
 		r.Undecided("no fmt formatting call found in scope")
 	}
+	// dynamic clause: an argument list handed on as a slice (`fmt.Sprintf(format, args...)`) is filled element by
+	// element; the static type of the elements is `any`, so what decides is the dynamic type of every value stored
+	// into the slice. With a format the Evy program supplies any verb can meet any argument, so each stored value
+	// must be of a basic Go type (or of a type whose own method renders it for every verb: fmt.Formatter).
+	for _, rel := range timeSourcePkgs {
+		pkg := p.Pkg(rel)
+		if pkg == nil {
+			continue
+		}
+		for _, fn := range ssaFuncsOf(p, pkg) {
+			k := 0
+			for _, b := range fn.Blocks {
+				for _, ins := range b.Instrs {
+					call, ok := ins.(*ssa.Call)
+					if !ok {
+						continue
+					}
+					sc := call.Call.StaticCallee()
+					if sc == nil || sc.Pkg == nil || sc.Pkg.Pkg.Path() != "fmt" || !sc.Signature.Variadic() || len(call.Call.Args) == 0 {
+						continue
+					}
+					va := call.Call.Args[len(call.Call.Args)-1]
+					ms, ok := va.(*ssa.MakeSlice)
+					if !ok {
+						continue // the in-place form: a slice of a fresh array whose elements are typed at the call (static clause above)
+					}
+					k++
+					construct := fmt.Sprintf("%s#fmt-dynamic-args[%d]:%s", ssaQName(fn), k, sc.Name())
+					bad := ""
+					stores := 0
+					for _, ref := range *ms.Referrers() {
+						ia, ok := ref.(*ssa.IndexAddr)
+						if !ok {
+							continue
+						}
+						for _, r2 := range *ia.Referrers() {
+							st, ok := r2.(*ssa.Store)
+							if !ok || st.Addr != ssa.Value(ia) {
+								continue
+							}
+							stores++
+							if why := dynNotBasic(st.Val, map[ssa.Value]bool{}, map[*ssa.Function]bool{}, 0); why != "" {
+								bad = why
+							}
+						}
+					}
+					if stores == 0 {
+						bad = "no element store found for the argument slice"
+					}
+					r.Check(bad == "", construct, p.Rel(instrPos(call)), "every value stored into the argument slice has a basic dynamic type",
+						"a value handed to a formatting call through an argument slice is not of a basic type ("+bad+"): with a verb other than %v/%s (the format is the program's) fmt prints the pointer — `printf \"%d\" [1 2]` would show a machine address that differs from run to run")
+				}
+			}
+		}
+	}
+}
+
+// dynNotBasic returns "" when every dynamic type v can have is a basic Go type, otherwise a description.
+func dynNotBasic(v ssa.Value, seen map[ssa.Value]bool, fseen map[*ssa.Function]bool, depth int) string {
+	if seen[v] || depth > 6 {
+		return ""
+	}
+	seen[v] = true
+	switch x := v.(type) {
+	case *ssa.MakeInterface:
+		t := x.X.Type()
+		if _, ok := t.Underlying().(*types.Basic); ok {
+			return ""
+		}
+		if ms := types.NewMethodSet(t); ms.Lookup(nil, "Format") != nil {
+			return ""
+		}
+		return "dynamic type " + t.String()
+	case *ssa.Phi:
+		for _, e := range x.Edges {
+			if why := dynNotBasic(e, seen, fseen, depth); why != "" {
+				return why
+			}
+		}
+		return ""
+	case *ssa.Const:
+		if x.IsNil() {
+			return ""
+		}
+	case *ssa.Call:
+		sc := x.Call.StaticCallee()
+		if sc == nil || sc.Blocks == nil {
+			return "result of a call that cannot be resolved"
+		}
+		if fseen[sc] {
+			return "" // coinductive: a recursive call returns what the other returns return
+		}
+		fseen[sc] = true
+		for _, ret := range returnsOf(sc) {
+			for _, rv := range resultValues(ret, 0) {
+				if why := dynNotBasic(rv, seen, fseen, depth+1); why != "" {
+					return why + " returned by " + sc.Name()
+				}
+			}
+		}
+		return ""
+	case *ssa.ChangeInterface:
+		return "an interface value passed on as it is (" + x.X.Type().String() + ")"
+	}
+	if _, ok := v.Type().Underlying().(*types.Interface); ok {
+		return "an interface value passed on as it is (" + v.Type().String() + ")"
+	}
+	return "value " + v.Name()
 }
